@@ -32,7 +32,8 @@ static const kind_t kinds[] = {
 	{33, OF_CODEC_LDPC_STAIRCASE_STABLE, 2, 3, 1, 3, 77, 0},
 	{34, OF_CODEC_LDPC_STAIRCASE_STABLE, 2, 4, 3, 4, 1, 0},		/* as 32 with longer symbols */
 	{35, OF_CODEC_LDPC_STAIRCASE_STABLE, 3, 3, 2, 3, 6, 0},		/* as 31 with another seed */
-	{36, OF_CODEC_LDPC_STAIRCASE_STABLE, 3, 3, 2, 3, 2147483646u, 0},	/* the largest valid seed */
+	{36, OF_CODEC_LDPC_STAIRCASE_STABLE, 3, 4, 2, 3, 2147483646u, 0},	/* the largest valid seed; N1 < n-k so that the matrix does depend on the PRNG (with N1 == n-k it is full) */
+	{37, OF_CODEC_LDPC_STAIRCASE_STABLE, 3, 4, 1, 3, 9, 0},
 	{24, OF_CODEC_REED_SOLOMON_GF_2_M_STABLE, 6, 3, 1, 0, 0, 8},	/* n = 9: exponents of the generator construction exceed 2^4 - 1 */
 	{25, OF_CODEC_REED_SOLOMON_GF_2_M_STABLE, 6, 3, 1, 0, 0, 4},
 };
@@ -168,6 +169,7 @@ int main(void)
 #ifndef OFV_NATIVE
 	__CPROVER_initialize();			/* a fresh process: every object of static storage duration back to its initial value */
 #endif
+	of_seed = 12345;			/* ... in which the PRNG has been left in some other valid state (a session must not depend on it) */
 	run_A(0, &r2, srcA, srcB);		/* the same calls of A alone */
 	ENSURES(r1.nst == r2.nst, "independent.same_calls");
 	for (i = 0; i < r1.nst && i < NST; i++) ENSURES(r1.st[i] == r2.st[i], "independent.statuses");
